@@ -85,7 +85,7 @@ def build_precond(model, cfg, dp_group, mp_group):
 
 
 def rank_body(cfg, history, observe=None):
-    """history events: ['train', nmicro] | ['save'] | ['load', k, compute_inverses] | ['state_dict']"""
+    """history events: ['train', nmicro] | ['save'] | ['load', k, compute_inverses] (fresh object) | ['load_same', k, compute_inverses] | ['state_dict']"""
     from deepspeed.pipe import PipelineModule
     from deepspeed.runtime.pipe.topology import PipeModelDataParallelTopology
     dist = torch.distributed
@@ -165,6 +165,13 @@ def rank_body(cfg, history, observe=None):
                 from harness import simdist
                 mark = sum(1 for x in simdist._WORLD.log if x[0] == rank)      # collectives of the constructor end here
                 pc.load_state_dict(copy.deepcopy(ckpts[e[1]]), compute_inverses=bool(e[2]))
+                obs.append({'ev': ev, 'kind': 'load', 'log_mark': mark})
+            elif e[0] == 'load_same':
+                # roll back: load an earlier state into the SAME (already used) preconditioner; the data stream follows the restored step count
+                from harness import simdist
+                mark = sum(1 for x in simdist._WORLD.log if x[0] == rank)
+                pc.load_state_dict(copy.deepcopy(ckpts[e[1]]), compute_inverses=bool(e[2]))
+                step = pc.steps
                 obs.append({'ev': ev, 'kind': 'load', 'log_mark': mark})
             if observe is not None:
                 obs[-1]['extra'] = observe(rank, ev, e, model, pc)
